@@ -405,6 +405,7 @@ int main(int argc, char **argv) {
             continue;
         }
         esx_run(&model);
+        ESX_CYCLES(&model);
     }
     v_finish();
     return (v_sh->viol_count || rc) ? 1 : 0;
